@@ -17,7 +17,8 @@ class Stream:
 
     def cwd(self):
         h = self.harness
-        return os.path.join(core.MODULES[h["module"]], h["pkg"].lstrip("./"))
+        d = os.path.join(core.MODULES[h["module"]], h["pkg"].lstrip("./"))
+        return d if os.path.isdir(d) else core.MODULES[h["module"]]
 
     def predicate(self, op, impl):
         """the property's own predicate evaluated on an implementation output; None = holds / not applicable,
@@ -143,7 +144,7 @@ def run_check(chk, tier, seed, replay=None):
             if why:
                 concrete.append({"stream": sname, "what": why, "input": {"op": o, "impl": a}})
         cov_streams[sname] = {"evaluations": d["evaluations"], "distinct_nontrivial": nt,
-                              "mismatches": len(d["mismatches"]), "op_kinds": kinds, "rule": st.rule}
+                              "mismatches": d["n_mismatches"], "op_kinds": kinds, "rule": st.rule}
         samples += [dict(s, stream=sname) for s in sample_cases(d["ops"], d["impl"], 3)]
         for m in d["mismatches"][:50]:
             why = st.predicate(m["op"], m["impl"])
@@ -191,7 +192,7 @@ def run_check(chk, tier, seed, replay=None):
                 known_hit.append(kf["id"])
                 lines.append("KNOWN-FINDING: property=%s %s: %s" % (pid, kf["id"], kf["what"]))
             continue
-        if nviol >= 5:
+        if nviol >= 3:
             nviol += 1
             continue
         p = core.write_replay(pid, seed, nviol, {"property": pid, "kind": "concrete-failing-input", **c})
